@@ -1,7 +1,7 @@
 """Per-property metadata used by ./check for evidence files and MANIFEST.json."""
 
 HOOK_COMMITS = []
-FIX_COMMITS = ['0a1810c', 'a823fe8', '611b765', '43d434c', 'bd77cd5', '75ae538', '463f78f', '94ec477', '5158e08']
+FIX_COMMITS = ['0a1810c', 'a823fe8', '611b765', '43d434c', 'bd77cd5', '75ae538', '463f78f', '94ec477', '5158e08', 'de159c6']
 
 REAL = ["nhooyr.io/websocket (all non-js code, both endpoints where libpair)", "bufio", "compress/flate", "context", "time (fake clock from testing/synctest)"]
 STUB = ["transport (simrt.simnet)", "handshake plumbing (fake RoundTripper / hijacker, no bytes on the wire)"]
